@@ -69,3 +69,27 @@ Example C05_remark_demo :
   /\ relist (s2l "20 REM " ++ remark_demo) = Some (s2l "20 REM x: ""PRINT"" goto 10 " ++ [233; 26085])
   /\ ends_word 32 = true /\ ends_word 58 = true /\ ends_word 34 = true.
 Proof. exact remark_demo_kept. Qed.
+
+(* ---- & constants (Proofs/RadixText.v) ---- *)
+From BL Require Import Proofs.RadixText.
+
+(* a hexadecimal / octal constant lists as & H digits / & digits, and that text -- in front of anything that does not
+   continue the digits -- scans back to the same constant (the character the scanner stopped at comes back in upper case) *)
+Theorem C05_radix_listing_is_the_source_text : forall s, lit_str (LHex s) = 38 :: 72 :: s /\ lit_str (LOct s) = 38 :: s.
+Proof. exact radix_listing_is_the_source_text. Qed.
+Print Assumptions C05_radix_listing_is_the_source_text.
+
+Theorem C05_hex_constant_reads_back : forall s rest, all_b hex_digit s = true -> stops true rest ->
+  lex_radix (72 :: s ++ rest) = (TLit (LHex s), handed_back rest).
+Proof. exact hex_constant_reads_back. Qed.
+Print Assumptions C05_hex_constant_reads_back.
+
+Theorem C05_oct_constant_reads_back : forall s rest, s <> [] -> all_b oct_digit s = true -> stops false rest ->
+  lex_radix (s ++ rest) = (TLit (LOct s), handed_back rest).
+Proof. exact oct_constant_reads_back. Qed.
+Print Assumptions C05_oct_constant_reads_back.
+
+Example C05_radix_demo :
+  all_b hex_digit [49; 70] = true /\ stops true [32; 43] /\ all_b oct_digit [49; 55] = true /\ stops false [56] /\ stops false [58]
+  /\ lex_radix (72 :: [49; 70] ++ [58]) = (TLit (LHex [49; 70]), [58]) /\ lex_radix ([49; 55] ++ [43]) = (TLit (LOct [49; 55]), [43]).
+Proof. exact radix_demo. Qed.
